@@ -93,18 +93,18 @@ func pickInt64(r *vh.Rng) int64 {
 
 // byte strings of length 0..96 for SetBytes, biased to the interesting lengths and values
 func setBytesInput(in *sc.Inst, r *vh.Rng) []byte {
-	lens := []int{0, 1, 2, in.L - 1, in.L, in.L + 1, 2 * in.L, 31, 32, 33, 63, 64, 65, 95, 96}
+	lens := []int{0, 1, 2, in.L - 1, in.L, in.L + 1, 2 * in.L, 31, 32, 33, 63, 64, 65, 66, 95, 96, 97, 100}
 	var n int
 	if r.Chance(70) {
 		n = lens[r.Intn(len(lens))]
 	} else {
-		n = r.Intn(97)
+		n = r.Intn(101)
 	}
 	if n < 0 {
 		n = 0
 	}
-	if n > 96 {
-		n = 96
+	if n > 100 {
+		n = 100
 	}
 	b := make([]byte, n)
 	switch r.Intn(8) {
@@ -167,8 +167,138 @@ func (g *gen) add(term string, desc interface{}, nontrivial bool) {
 	}
 }
 
-func (g *gen) opCase(in *sc.Inst, r *vh.Rng, op int) {
+// aliasing patterns of receiver.Op(a, b)
+const (
+	patFresh = iota // a new receiver
+	patRecvA        // receiver is the first operand object
+	patRecvB        // receiver is the second operand object
+	patBoth         // receiver, first and second operand are one object
+	patDirty        // receiver is an object with a history
+)
+
+var patNames = []string{"fresh", "recv=a", "recv=b", "recv=a=b", "dirty-recv"}
+
+// operand routes: how the operand OBJECT was produced (its representation
+// may depend on it, e.g. a short bigmod.Nat after One()/Zero())
+const (
+	rtUnmarshal = iota
+	rtOne
+	rtZero
+	rtInt64
+	rtSetBytes
+	rtArith
+	rtPick
+)
+
+var rtNames = []string{"UnmarshalBinary", "One", "Zero", "SetInt64", "SetBytes", "arithmetic", "Pick"}
+
+// object builds a scalar OBJECT holding v through the given API route
+func (g *gen) object(in *sc.Inst, v *big.Int, route int, r *vh.Rng) kyber.Scalar {
+	switch route {
+	case rtOne:
+		return in.Mk().One()
+	case rtZero:
+		return in.Mk().Zero()
+	case rtInt64:
+		return in.Mk().SetInt64(v.Int64())
+	case rtSetBytes:
+		kq := new(big.Int).Mul(in.Q, big.NewInt(int64(r.Intn(3))))
+		b := kq.Add(kq, v).Bytes()
+		if in.LE {
+			sc.Rev(b)
+		}
+		return in.Mk().SetBytes(b)
+	case rtArith:
+		t := sc.Operand(in, r)
+		d := new(big.Int).Sub(v, t)
+		d.Mod(d, in.Q)
+		return in.Mk().Add(in.Scalar(d, g.rep), in.Scalar(t, g.rep))
+	case rtPick:
+		if in.Kind != sc.KCircl {
+			n := (in.Q.BitLen() + 7) / 8
+			return in.Mk().Pick(&sc.FixedStream{Buf: append(v.FillBytes(make([]byte, n)), r.Bytes(n)...)})
+		}
+	}
+	return in.Scalar(v, g.rep)
+}
+
+// dirty returns a receiver that has been used before (kind k): its stored
+// value / representation must not leak into the next result
+func (g *gen) dirty(in *sc.Inst, k int, r *vh.Rng) (kyber.Scalar, string) {
+	x, y := in.Scalar(sc.Nonzero(in, r), g.rep), in.Scalar(sc.Nonzero(in, r), g.rep)
+	switch k % 8 {
+	case 0:
+		return in.Scalar(new(big.Int).Sub(in.Q, big.NewInt(1)), g.rep), "UnmarshalBinary(q-1)"
+	case 1:
+		return in.Mk().Mul(x, y), "Mul"
+	case 2:
+		return in.Mk().SetInt64(-5), "SetInt64(-5)"
+	case 3:
+		return in.Mk().Inv(x), "Inv"
+	case 4:
+		return in.Mk().Pick(vh.NewSeqStream(r.Bytes(16))), "Pick"
+	case 5:
+		return in.Mk().SetBytes(r.Bytes(64)), "SetBytes(64 bytes)"
+	case 6:
+		return in.Mk().One(), "One"
+	}
+	return in.Mk().Zero(), "Zero"
+}
+
+// opExact runs receiver.Op(sa, sb) under an aliasing pattern on the given
+// operand objects (holding a, b), checks it against the integers and emits
+// the correspondence case.  tag classifies the case in failure keys.
+func (g *gen) opExact(in *sc.Inst, r *vh.Rng, op int, a, b *big.Int, sa, sb kyber.Scalar, pat int, dirtyKind int, tag string) {
 	g.id++
+	unary := op >= 4
+	recv := in.Mk()
+	how := ""
+	switch pat {
+	case patRecvA:
+		recv = sa
+	case patRecvB:
+		recv = sb
+	case patBoth:
+		sb, b = sa, a
+		recv = sa
+	case patDirty:
+		recv, how = g.dirty(in, dirtyKind, r)
+	}
+	pan, msg := vh.Try(func() { apply(op, recv, sa, sb) })
+	replay := map[string]string{"impl": in.Name, "op": opNames[op], "a": a.String(), "b": b.String(), "q": in.Q.String(),
+		"aliasing": patNames[pat], "receiver_history": how, "operands": tag}
+	key := "scalar/" + in.Name + "/" + opNames[op]
+	cls := ""
+	if pat != patFresh {
+		cls = "/" + patNames[pat]
+	}
+	if tag != "" {
+		cls += "/operand-from:" + tag
+	}
+	if pan {
+		g.rep.Fail(key+"/panic"+cls, "operation panicked: "+msg, replay)
+		return
+	}
+	out := sc.BytesOf(recv)
+	want := expected(op, a, b, in.Q)
+	if string(out) != string(sc.Enc(in, want)) {
+		replay["got"], replay["want"] = vh.Hex(out), vh.Hex(sc.Enc(in, want))
+		g.rep.Fail(key+"/value"+cls, "result differs from the operation on integers modulo q", replay)
+	}
+	// operands that are not the receiver must be left unchanged
+	if (recv != sa && string(sc.BytesOf(sa)) != string(sc.Enc(in, a))) ||
+		(!unary && recv != sb && string(sc.BytesOf(sb)) != string(sc.Enc(in, b))) {
+		g.rep.Fail(key+"/operand-modified"+cls, "an operand changed", replay)
+	}
+	g.rep.Dist(in.Name + "/" + opNames[op])
+	if pat != patFresh {
+		g.rep.Dist("aliasing/" + patNames[pat])
+	}
+	g.add(fmt.Sprintf("COp %d %s %d %s %s %s", g.id, in.Coq(), op, vh.CoqZ(a), vh.CoqZ(b), vh.CoqBytes(out)),
+		replay, a.Sign() != 0 || b.Sign() != 0)
+}
+
+func (g *gen) opCase(in *sc.Inst, r *vh.Rng, op int) {
 	a := sc.Operand(in, r)
 	b := sc.Operand(in, r)
 	if op == 3 {
@@ -177,39 +307,193 @@ func (g *gen) opCase(in *sc.Inst, r *vh.Rng, op int) {
 	if op == 5 {
 		a = sc.Nonzero(in, r)
 	}
-	sa, sb := in.Scalar(a, g.rep), in.Scalar(b, g.rep)
-	recv := in.Mk()
+	pat := patFresh
 	if r.Bool() { // a receiver that already holds something
-		recv = in.Scalar(sc.Operand(in, r), g.rep)
+		pat = patDirty
 	}
-	pan, msg := vh.Try(func() { apply(op, recv, sa, sb) })
-	replay := map[string]string{"impl": in.Name, "op": opNames[op], "a": a.String(), "b": b.String(), "q": in.Q.String()}
-	key := "scalar/" + in.Name + "/" + opNames[op]
-	if pan {
-		g.rep.Fail(key+"/panic", "operation panicked: "+msg, replay)
-		return
-	}
-	out := sc.BytesOf(recv)
-	want := expected(op, a, b, in.Q)
-	if string(out) != string(sc.Enc(in, want)) {
-		replay["got"], replay["want"] = vh.Hex(out), vh.Hex(sc.Enc(in, want))
-		g.rep.Fail(key+"/value", "result differs from the operation on integers modulo q", replay)
-	}
-	// operands must be left unchanged
-	if string(sc.BytesOf(sa)) != string(sc.Enc(in, a)) || (op <= 3 && string(sc.BytesOf(sb)) != string(sc.Enc(in, b))) {
-		g.rep.Fail(key+"/operand-modified", "an operand changed", replay)
-	}
-	g.rep.Dist(in.Name + "/" + opNames[op])
-	g.add(fmt.Sprintf("COp %d %s %d %s %s %s", g.id, in.Coq(), op, vh.CoqZ(a), vh.CoqZ(b), vh.CoqBytes(out)),
-		replay, a.Sign() != 0 || b.Sign() != 0)
+	g.opExact(in, r, op, a, b, in.Scalar(a, g.rep), in.Scalar(b, g.rep), pat, r.Intn(8), "")
 }
 
-func (g *gen) setBytesCase(in *sc.Inst, r *vh.Rng) {
+// enumCases: the part of the run that is ENUMERATED rather than sampled, so
+// that every (implementation, operation, aliasing pattern), every setter on
+// every kind of used receiver, every operation on operands produced by
+// One/Zero/SetInt64/SetBytes/arithmetic/Pick, the Equal boundary pairs and
+// the SetBytes length boundaries are hit in every run.
+func (g *gen) enumCases(in *sc.Inst, r *vh.Rng) {
+	big64 := in.Q.BitLen() > 64
+	// (1) aliasing patterns
+	for op := 0; op <= 5; op++ {
+		for pat := patFresh; pat <= patDirty; pat++ {
+			if op >= 4 && (pat == patRecvB || pat == patBoth) {
+				continue
+			}
+			a, b := sc.Nonzero(in, r), sc.Nonzero(in, r)
+			g.opExact(in, r, op, a, b, in.Scalar(a, g.rep), in.Scalar(b, g.rep), pat, op+pat, "")
+		}
+	}
+	// (2) operands produced by other API routes, in either position
+	x := sc.Nonzero(in, r)
+	small := big.NewInt(int64(3 + r.Intn(1000)))
+	small.Mod(small, in.Q)
+	one, zero := new(big.Int).Mod(big.NewInt(1), in.Q), big.NewInt(0)
+	type od struct {
+		v  *big.Int
+		rt int
+	}
+	special := []od{{one, rtOne}, {zero, rtZero}, {small, rtInt64}, {sc.Operand(in, r), rtSetBytes}, {sc.Operand(in, r), rtArith}, {sc.Operand(in, r), rtPick}}
+	for op := 0; op <= 3; op++ {
+		for k, sp := range special {
+			if op == 3 && k >= 2 && k != 4 { // keep the number of (expensive) divisions small
+				continue
+			}
+			if !(op == 3 && sp.v.Sign() == 0) {
+				g.opExact(in, r, op, x, sp.v, in.Scalar(x, g.rep), g.object(in, sp.v, sp.rt, r), patFresh, 0, "b:"+rtNames[sp.rt])
+			}
+			if op != 3 {
+				g.opExact(in, r, op, sp.v, x, g.object(in, sp.v, sp.rt, r), in.Scalar(x, g.rep), patFresh, 0, "a:"+rtNames[sp.rt])
+			}
+		}
+	}
+	g.opExact(in, r, 3, one, x, g.object(in, one, rtOne, r), in.Scalar(x, g.rep), patFresh, 0, "a:One")
+	g.opExact(in, r, 0, one, one, g.object(in, one, rtOne, r), g.object(in, one, rtOne, r), patFresh, 0, "a:One,b:One")
+	g.opExact(in, r, 2, one, zero, g.object(in, one, rtOne, r), g.object(in, zero, rtZero, r), patFresh, 0, "a:One,b:Zero")
+	g.opExact(in, r, 4, one, one, g.object(in, one, rtOne, r), in.Mk(), patFresh, 0, "a:One")
+	g.opExact(in, r, 4, zero, zero, g.object(in, zero, rtZero, r), in.Mk(), patFresh, 0, "a:Zero")
+	g.opExact(in, r, 5, one, one, g.object(in, one, rtOne, r), in.Mk(), patFresh, 0, "a:One")
+	g.opExact(in, r, 4, small, small, g.object(in, small, rtInt64, r), in.Mk(), patFresh, 0, "a:SetInt64")
+	// (3) setters on used receivers: nothing of the old value may survive
+	for k := 0; k < 8; k++ {
+		g.setterOnDirty(in, r, k)
+	}
+	// (4) Equal where the operands agree in their low 64 bits / low bytes only,
+	// one of them produced by One/Zero/SetInt64, both directions
+	if big64 {
+		for k := 0; k < 3; k++ {
+			hi := new(big.Int).Lsh(big.NewInt(int64(1+r.Intn(1000))), uint(64*(1+r.Intn((in.Q.BitLen()-1)/64))))
+			if hi.Cmp(in.Q) >= 0 {
+				hi.Lsh(big.NewInt(1), 64)
+			}
+			lowv := []od{{one, rtOne}, {zero, rtZero}, {small, rtInt64}}[k]
+			y := new(big.Int).Add(hi, lowv.v)
+			y.Mod(y, in.Q)
+			g.equalExact(in, lowv.v, y, g.object(in, lowv.v, lowv.rt, r), in.Scalar(y, g.rep), rtNames[lowv.rt]+" vs same low limb")
+			g.equalExact(in, lowv.v, lowv.v, g.object(in, lowv.v, lowv.rt, r), in.Scalar(lowv.v, g.rep), rtNames[lowv.rt]+" vs UnmarshalBinary")
+		}
+	}
+	// (5) SetBytes length boundaries: every byte non-zero, so that nothing can
+	// be dropped at either end unnoticed
+	for _, n := range []int{0, 1, in.L - 1, in.L, in.L + 1, 31, 32, 33, 47, 48, 49, 63, 64, 65, 66, 72, 80, 95, 96, 97, 100, 127, 128, 129} {
+		if n < 0 {
+			continue
+		}
+		bs := make([]byte, n)
+		for i := range bs {
+			bs[i] = byte(1 + r.Intn(255))
+		}
+		g.setBytesExact(in, r, bs, n%3 == 0)
+	}
+}
+
+// equalExact: x.Equal(y) and y.Equal(x) for objects holding a and b
+func (g *gen) equalExact(in *sc.Inst, a, b *big.Int, x, y kyber.Scalar, tag string) {
+	want := a.Cmp(b) == 0
+	for dir := 0; dir < 2; dir++ {
+		g.id++
+		var eq bool
+		pan, msg := vh.Try(func() { eq = x.Equal(y) })
+		replay := map[string]string{"impl": in.Name, "op": "Equal", "a": a.String(), "b": b.String(), "q": in.Q.String(), "operands": tag, "direction": fmt.Sprint(dir)}
+		if pan {
+			g.rep.Fail("scalar/"+in.Name+"/Equal/panic", msg, replay)
+		} else {
+			if eq != want {
+				g.rep.Fail("scalar/"+in.Name+"/Equal/operand-from:"+tag, fmt.Sprintf("Equal=%v but residues equal=%v", eq, want), replay)
+			}
+			g.rep.Dist(in.Name + "/Equal")
+			g.add(fmt.Sprintf("CEqual %d %s %s %s %s", g.id, in.Coq(), vh.CoqZ(a), vh.CoqZ(b), vh.CoqBool(eq)), replay, true)
+		}
+		x, y, a, b = y, x, b, a
+	}
+}
+
+// setterOnDirty: SetInt64 / SetBytes / Zero / One / Pick / Set on a used receiver
+func (g *gen) setterOnDirty(in *sc.Inst, r *vh.Rng, k int) {
+	for which := 0; which < 6; which++ {
+		if (which+k)%2 == 1 { // half of the (setter, receiver kind) grid per run, alternating
+			continue
+		}
+		g.id++
+		recv, how := g.dirty(in, k, r)
+		var want *big.Int
+		var term, name string
+		replay := map[string]string{"impl": in.Name, "receiver_history": how, "q": in.Q.String()}
+		var pan bool
+		var msg string
+		switch which {
+		case 0, 1: // small non-negative / negative int64
+			v := int64(r.Intn(1 << 20))
+			if which == 1 {
+				v = -v - 1
+			}
+			name = "SetInt64"
+			replay["v"] = fmt.Sprint(v)
+			pan, msg = vh.Try(func() { recv.SetInt64(v) })
+			want = new(big.Int).Mod(big.NewInt(v), in.Q)
+			term = fmt.Sprintf("CInt64 %d %s %s ", g.id, in.Coq(), vh.CoqZ(big.NewInt(v)))
+		case 2: // a short byte string
+			bs := r.Bytes(1 + r.Intn(3))
+			name = "SetBytes"
+			replay["bytes"] = vh.Hex(bs)
+			pan, msg = vh.Try(func() { recv.SetBytes(bs) })
+			want = sc.Dec(in, bs)
+			want.Mod(want, in.Q)
+			term = fmt.Sprintf("CSetBytes %d %s %s ", g.id, in.Coq(), vh.CoqBytes(bs))
+		case 3:
+			name = "Zero"
+			pan, msg = vh.Try(func() { recv.Zero() })
+			want = big.NewInt(0)
+			term = fmt.Sprintf("COp %d %s 6 0 0 ", g.id, in.Coq())
+		case 4:
+			name = "One"
+			pan, msg = vh.Try(func() { recv.One() })
+			want = new(big.Int).Mod(big.NewInt(1), in.Q)
+			term = fmt.Sprintf("COp %d %s 7 0 0 ", g.id, in.Coq())
+		default: // Set(x) then use: x + 0
+			x := sc.Operand(in, r)
+			name = "Set"
+			replay["a"] = x.String()
+			pan, msg = vh.Try(func() { recv.Set(in.Scalar(x, g.rep)) })
+			want = x
+			term = fmt.Sprintf("COp %d %s 0 %s 0 ", g.id, in.Coq(), vh.CoqZ(x))
+		}
+		key := "scalar/" + in.Name + "/" + name
+		if pan {
+			g.rep.Fail(key+"/panic/dirty-recv", name+" panicked on a used receiver: "+msg, replay)
+			continue
+		}
+		out := sc.BytesOf(recv)
+		if string(out) != string(sc.Enc(in, want)) {
+			replay["got"], replay["want"] = vh.Hex(out), vh.Hex(sc.Enc(in, want))
+			g.rep.Fail(key+"/value/dirty-recv", name+" on a used receiver: the old contents leak into the result", replay)
+		}
+		// and the object must behave as that value afterwards: recv + 1
+		w1 := new(big.Int).Add(want, big.NewInt(1))
+		w1.Mod(w1, in.Q)
+		if s1 := in.Mk().Add(recv, in.Mk().One()); string(sc.BytesOf(s1)) != string(sc.Enc(in, w1)) {
+			replay["got"] = vh.Hex(sc.BytesOf(s1))
+			g.rep.Fail(key+"/then-Add/dirty-recv", "arithmetic on the object after "+name+" is wrong", replay)
+		}
+		g.rep.Dist(in.Name + "/" + name)
+		g.rep.Dist("setter-on-used-receiver/" + name)
+		g.add(term+vh.CoqBytes(out), replay, true)
+	}
+}
+
+// setBytesExact: SetBytes of a given string
+func (g *gen) setBytesExact(in *sc.Inst, r *vh.Rng, bs []byte, dirtyRecv bool) {
 	g.id++
-	bs := setBytesInput(in, r)
 	cp := append([]byte{}, bs...)
 	s := in.Mk()
-	if r.Bool() {
+	if dirtyRecv {
 		s = in.Scalar(sc.Operand(in, r), g.rep)
 	}
 	replay := map[string]string{"impl": in.Name, "op": "SetBytes", "bytes": vh.Hex(bs), "q": in.Q.String()}
@@ -232,6 +516,10 @@ func (g *gen) setBytesCase(in *sc.Inst, r *vh.Rng) {
 	g.rep.Dist(in.Name + "/SetBytes")
 	g.rep.Dist("SetBytes/len" + lenClass(len(bs), in.L))
 	g.add(fmt.Sprintf("CSetBytes %d %s %s %s", g.id, in.Coq(), vh.CoqBytes(bs), vh.CoqBytes(out)), replay, len(bs) > 0)
+}
+
+func (g *gen) setBytesCase(in *sc.Inst, r *vh.Rng) {
+	g.setBytesExact(in, r, setBytesInput(in, r), r.Bool())
 }
 
 func lenClass(n, l int) string {
@@ -537,9 +825,9 @@ func main() {
 	o := vh.ParseFlags()
 	rng := vh.NewRng(o.Seed)
 	rep := vh.NewReport("C02", o.Seed, o.Tier)
-	rep.Rule = "per scalar implementation (ed25519 limb code; mod.Int for P-256, BN256, BN254, kilic, QR-512 and 9 synthetic moduli in both byte orders; CIRCL; gnark): Add/Sub/Mul/Div/Neg/Inv/Zero/One on operands from {0,1,2,q-1,q-2,2^k,2^k+-1,(q+-1)/2, 21-bit limb patterns, 64-bit word patterns, uniform}, SetBytes on strings of length 0..96 (all-0, all-ff, k*q+-d, single byte, random), SetInt64 on int64 boundary values, Equal across computation paths, Pick over recorded streams with 0..7 forced rejections; the Ed25519 limb functions scMulAdd/scAdd/scSub/scMul driven directly on reduced operands and scReduce on 64-byte strings (all-ff, limb patterns, k*L+d, random); distinct = distinct canonical case text; non-trivial = some operand / input non-zero"
+	rep.Rule = "per scalar implementation (ed25519 limb code; mod.Int for P-256, BN256, BN254, kilic, QR-512 and 9 synthetic moduli in both byte orders; CIRCL; gnark): Add/Sub/Mul/Div/Neg/Inv/Zero/One on operands from {0,1,2,q-1,q-2,2^k,2^k+-1,(q+-1)/2, 21-bit limb patterns, 64-bit word patterns, uniform}, SetBytes on strings of length 0..100 (all-0, all-ff, k*q+-d, single byte, random), SetInt64 on int64 boundary values, Equal across computation paths, Pick over recorded streams with 0..7 forced rejections; the Ed25519 limb functions scMulAdd/scAdd/scSub/scMul driven directly on reduced operands and scReduce on 64-byte strings (all-ff, limb patterns, k*L+d, random); ENUMERATED in every run per implementation: every operation under every aliasing pattern (fresh receiver, receiver = first operand, = second operand, = both, used receiver of 8 kinds), operations on operands produced by One/Zero/SetInt64/SetBytes/arithmetic/Pick in either position, setters (SetInt64 +/-, SetBytes, Zero, One, Set) on used receivers followed by arithmetic, Equal in both directions on operands agreeing in their low 64 bits, SetBytes of all-non-zero strings of 24 boundary lengths 0..129; a second binary built with -tags constantTime (mod.Int over bigmod, Ed25519 and CIRCL on top) runs the same enumeration plus 500 sampled cases in the quick tier (a quarter of the budget in thorough); distinct = distinct canonical case text; non-trivial = some operand / input non-zero"
 	insts := sc.Instances()
-	total := 2900
+	total := 2200
 	invScale := 1
 	if o.Thorough {
 		total = 30000
@@ -554,6 +842,9 @@ func main() {
 		g.id = 10000000
 		prefix = "c02ct"
 		total /= 4
+		if !o.Thorough {
+			total = 500
+		}
 	}
 	wsum := 0
 	for _, in := range insts {
@@ -590,13 +881,16 @@ func main() {
 				g.limbCase(in, r.Fork())
 			}
 		}
-		for k := 0; k < nInv; k++ {
-			c := r.Fork()
-			op := 5
-			if k%2 == 1 {
-				op = 3
+		g.enumCases(in, r.Fork())
+		if o.Thorough || o.Search { // additional sampled inversions / divisions
+			for k := 0; k < nInv; k++ {
+				c := r.Fork()
+				op := 5
+				if k%2 == 1 {
+					op = 3
+				}
+				g.opCase(in, c, op)
 			}
-			g.opCase(in, c, op)
 		}
 	}
 	if !o.Search {
@@ -621,10 +915,8 @@ func main() {
 		}
 		vh.WriteShards(o.Out, prefix, cf, per, rep)
 	}
-	if o.Thorough && !sc.CT && !*ctChild {
+	if !sc.CT && !*ctChild {
 		runCT(o, rep)
-	} else if !sc.CT && !*ctChild {
-		rep.Note("constantTime variant (mod.Int over bigmod) is exercised in the thorough tier only")
 	}
 	rep.Write(o.Out)
 }
